@@ -76,9 +76,13 @@ type HailChange struct {
 // The returned channel is closed when ctx is Done or the hail identified by id is deleted.
 func (m *Model) PullHail(ctx context.Context, id string, opts ...resource.ReadOption) <-chan HailChange {
 	send := make(chan HailChange)
+	// subscribe before returning: a removal that happens right after this call returns must not be missed
+	// (the goroutine below may not have run by then); when ctx is cancelled, or the hail is deleted, then the
+	// resource will close recv for us
+	recv := m.hails.PullID(ctx, id, opts...)
 	go func() {
 		defer close(send)
-		for change := range m.hails.PullID(ctx, id, opts...) {
+		for change := range recv {
 			select {
 			case <-ctx.Done():
 				return
